@@ -217,7 +217,8 @@ def roReconcile (i : Nat) (bound : Bool) (w : World) (tr : Option TRO) (f : TFau
 
 /-! ### the closed loop -/
 
-/-- one Rollout with its workload and BatchRelease (the `net` / `mem` fields of `w` are not read: the joint state's are) -/
+/-- one Rollout with its workload and BatchRelease (the `net` / `mem` fields of `w` are not read: the joint state's are;
+    once the object is gone the record keeps the last state it was seen in and is never read again) -/
 structure Entry where
   bound : Bool
   gone : Bool
@@ -254,6 +255,11 @@ inductive Label where
 
 def roWorld (s : JS) (e : Entry) : RolloutSM.World := { e.w with net := s.net, mem := s.mem }
 
+/-- the workload as the finder reports it next time: a rollback is reported only while the in-progress annotation is
+    there (`ControllerFinder.getKruiseCloneSet` returns before `IsInRollback` is computed otherwise) -/
+def landWl (w : RolloutSM.World) : RolloutSM.World :=
+  { w with wl := w.wl.map fun x => { x with inRollback := x.inRollback && x.inProgressAnno } }
+
 def ageExp : Exp → Exp
   | .fresh => .elapsed
   | e => e
@@ -284,7 +290,7 @@ def step (s : JS) : Label → Option JS
       if e.gone then some s else
       match roReconcile i e.bound (roWorld s e) s.tr f with
       | .panic => none
-      | .val r tr' => some { tr := tr', net := r.w.net, mem := r.w.mem, ros := s.ros.set i { e with w := r.w, gone := r.roGone } }
+      | .val r tr' => some { tr := tr', net := r.w.net, mem := r.w.mem, ros := s.ros.set i { e with w := if r.roGone then e.w else landWl r.w, gone := r.roGone } }
   | .tr =>
     match s.tr with
     | none => some s
